@@ -223,7 +223,7 @@ def _explore_chunk(idx):
     d = os.path.join(workdir, 'prog%d' % idx)
     core.write_pkg(d, {'main.go': program_source(ch)})
     t0 = time.time()
-    ok, out = core.compile_js(d)
+    ok, out = core.compile_js(d, minify=bool(_WORK.get('minify')))
     if not ok:
         for c in ch:
             rep.cases += 1
@@ -292,12 +292,12 @@ class Report:
             self.flags[k] = self.flags.get(k, 0) + v
 
 
-def check_cases(cases, workdir, chunk=40, cfg=None, jobs=None, z3_timeout_ms=30000, report=None, progress=None, known=None):
+def check_cases(cases, workdir, chunk=40, cfg=None, jobs=None, z3_timeout_ms=30000, report=None, progress=None, known=None, minify=False):
     """Compile, explore and verify all cases (in parallel, one process per chunk).  Returns a Report."""
     rep = report or Report()
     rep.known = known or []
     chunks = [cases[i:i + chunk] for i in range(0, len(cases), chunk)]
-    _WORK.update(chunks=chunks, workdir=workdir, cfg=dict(cfg or {}), known=known or [], z3_timeout_ms=z3_timeout_ms)
+    _WORK.update(chunks=chunks, workdir=workdir, cfg=dict(cfg or {}), known=known or [], z3_timeout_ms=z3_timeout_ms, minify=minify)
     jobs = jobs or min(len(chunks), max(1, (os.cpu_count() or 4)))
     core.gopherjs_bin()     # build the compiler once, before forking
     t0 = time.time()
@@ -662,13 +662,13 @@ def fp_bits(v, t):
     raise ValueError(v)
 
 
-def replay(case, model, outdir):
+def replay(case, model, outdir, minify=False):
     """Build the closed program with native go and with the real gopherjs; return both transcripts."""
     os.makedirs(outdir, exist_ok=True)
     src = replay_program(case, model)
     core.write_pkg(outdir, {'main.go': src}, module='replay')
     go_rc, go_out, go_err = core.go_run(outdir)
-    ok, js = core.compile_js(outdir)
+    ok, js = core.compile_js(outdir, minify=minify)
     if not ok:
         js_rc, js_out, js_err = None, '', js
     else:
